@@ -17,9 +17,24 @@ type cellPayload struct {
 func addOverflow(db *Database, pl cellPayload) ([]byte, error) {
 	to := pl.Payload
 	overflow := pl.Overflow
+	// loop detection (Brent's algorithm): `seen` is an overflow page we
+	// visited earlier, at increasing distances
+	seen, steps, power := 0, 0, 1
 	for {
-		if overflow == 0 {
+		if overflow == 0 || int64(len(to)) >= pl.Length {
+			// either the end of the chain, or we have all the bytes we
+			// need (SQLite doesn't read further either).
+			if int64(len(to)) < pl.Length {
+				return nil, ErrCorrupted
+			}
 			return to[:pl.Length], nil
+		}
+		if overflow == seen {
+			// chain loops back on itself
+			return nil, ErrCorrupted
+		}
+		if steps++; steps == power {
+			seen, steps, power = overflow, 0, power*2
 		}
 		buf, err := db.page(overflow)
 		if err != nil {
